@@ -80,16 +80,25 @@ OracleResult(f, log, n, arg) ==
   ELSE IF ~SameValue(f.rs[k].a, arg) THEN Er(ErrBase("OracleArgumentMismatch"))
   ELSE f.rs[k].r
 
-St(c, log) == [ctx |-> c, log |-> log]
+\* `unc`: the evaluation applied a builtin or an operator to operands for which the documentation allows more than one
+\* outcome (BuiltinAllowed / AltOutcomes: NaN in min / max, shift amounts outside 0..63, Int against Float orderings, ...).
+\* Eval is deterministic - it picks one reading - so an observer that compares a RECORDED evaluation with Eval's result
+\* must treat such an evaluation as undetermined (Trace_Api does).
+St(c, log) == [ctx |-> c, log |-> log, unc |-> FALSE]
 Res(r, st) == [r |-> r, st |-> st]
 
 \* function resolution: the context's own function, else a builtin if enabled, else unknown
 CallFunction(st, n, arg) ==
   IF n \in DOMAIN st.ctx.funcs
-  THEN LET f == st.ctx.funcs[n] IN
-       Res(IF f.b = "oracle" THEN OracleResult(f, st.log, n, arg) ELSE RunBehaviour(f, arg),
-           [st EXCEPT !.log = Append(st.log, [n |-> n, a |-> arg])])
-  ELSE IF ~st.ctx.nb /\ IsBuiltinName(n) THEN Res(ApplyBuiltin(BuiltinId[n], arg), st)
+  THEN LET f == st.ctx.funcs[n]
+           r == IF f.b = "oracle" THEN OracleResult(f, st.log, n, arg) ELSE RunBehaviour(f, arg)
+           \* an observed user function that itself answers FunctionIdentifierNotFound: the crate then falls back to the builtin
+           \* (named deviation KF-2, recorded for C09); what follows is not determined for an observer of other properties
+           kf2 == f.b = "oracle" /\ ~r.ok /\ r.e.e = "FunctionIdentifierNotFound"
+       IN Res(r, [st EXCEPT !.log = Append(st.log, [n |-> n, a |-> arg]), !.unc = @ \/ kf2])
+  ELSE IF ~st.ctx.nb /\ IsBuiltinName(n)
+       THEN LET r == ApplyBuiltin(BuiltinId[n], arg) IN
+            Res(r, IF BuiltinAllowed(BuiltinId[n], arg) = {PatternOf(r)} THEN st ELSE [st EXCEPT !.unc = TRUE])
   ELSE Res(Er(FunctionIdentifierNotFound(n)), st)
 
 PlainOf(o) == CASE o = "AddAssign" -> "Add" [] o = "SubAssign" -> "Sub" [] o = "MulAssign" -> "Mul"
@@ -126,7 +135,8 @@ ApplyNode(n, vals, st, mode) ==
                         IF ~r.ok THEN Res(r, st)
                         ELSE LET s == SetValue(st.ctx, target, r.v) IN
                              IF s.ok THEN Res(Ok(VEmpty), [st EXCEPT !.ctx = s.ctx]) ELSE Res(Er(s.e), st)
-    [] OTHER -> Res(ApplyOp(n.o, vals), st)
+    [] OTHER -> LET r == ApplyOp(n.o, vals) IN
+                Res(r, IF AltOutcomes(n.o, vals) \subseteq {r} THEN st ELSE [st EXCEPT !.unc = TRUE])
 
 RECURSIVE Eval(_, _, _), EvalKids(_, _, _, _, _)
 EvalKids(kids, i, st, mode, acc) ==
